@@ -91,7 +91,14 @@ def near_trl_scenario(rng, ctype, F):
         else:
             by["L"] = st
     var = int(rng.integers(0, 4))
-    known = calgen.rand_param(rng, F, 0.8)
+    # the known reflect of variant 0 must actually reflect: a match (or a
+    # nearly matched load) says nothing about the reflection tracking term,
+    # and thru + line + reflect-on-one-port then leave a one-parameter family
+    # of exact solutions (enough equations, terms not determined)
+    for _ in range(50):
+        known = calgen.rand_param(rng, F, 0.8)
+        if float(np.min(np.abs(known.values))) > 0.3:
+            break
     if var == 0:
         # unknown reflect on one port, a different known reflect on the other
         k = int(rng.integers(0, 2))
